@@ -34,6 +34,16 @@ tagCategoryExplicit = 0x02
 tagCategoryUntagged = 0x04
 
 
+def _tagIdRepr(tagId):
+    # tag numbers are unbounded, but the interpreter may refuse to render
+    # huge integers in decimal notation
+    try:
+        return '%s' % (tagId,)
+
+    except ValueError:
+        return hex(tagId)
+
+
 class Tag(object):
     """Create ASN.1 tag
 
@@ -65,7 +75,7 @@ class Tag(object):
 
     def __repr__(self):
         representation = '[%s:%s:%s]' % (
-            self.__tagClass, self.__tagFormat, self.__tagId)
+            self.__tagClass, self.__tagFormat, _tagIdRepr(self.__tagId))
         return '<%s object, tag %s>' % (
             self.__class__.__name__, representation)
 
@@ -194,7 +204,7 @@ class TagSet(object):
         self.__hash = hash(self.__superTagsClassId)
 
     def __repr__(self):
-        representation = '-'.join(['%s:%s:%s' % (x.tagClass, x.tagFormat, x.tagId)
+        representation = '-'.join(['%s:%s:%s' % (x.tagClass, x.tagFormat, _tagIdRepr(x.tagId))
                                    for x in self.__superTags])
         if representation:
             representation = 'tags ' + representation
